@@ -275,22 +275,17 @@ func c07(c *core.Ctx) {
 		chunkType := field(c, "uasc", "Header", "ChunkType")
 		writeStruct := obj(c, "ua", "Buffer", "WriteStruct")
 		interm, final := int64('C'), int64('F')
-		var stores []*ssa.Store
-		for _, a := range ssax.FieldAccesses(encChunks, chunkType) {
-			if st, ok := a.Use.(*ssa.Store); ok && a.Kind == ssax.Write {
-				stores = append(stores, st)
-			}
+		// emission sites: a header write preceded by a ChunkType store. In EncodeChunks itself the site is the write;
+		// in a private helper whose ChunkType store takes its value from a parameter, every call of the helper in
+		// EncodeChunks is a site with the corresponding argument as kind.
+		type emission struct {
+			at   ssa.Instruction // instruction in EncodeChunks
+			kind int64           // constant chunk type, -1 unknown
+			set  bool            // a ChunkType store dominates the write
+			stIn ssa.Instruction // the store (or the call) in EncodeChunks
 		}
+		var ems []emission
 		loops := ssax.Loops(encChunks)
-		var hdrWrites []ssa.CallInstruction
-		for _, call := range ssax.CallsTo(encChunks, writeStruct) {
-			arg := call.Common().Args[1]
-			if mi, ok := arg.(*ssa.MakeInterface); ok {
-				if n := derefNamed(mi.X.Type()); n != nil && n.Obj().Name() == "Header" {
-					hdrWrites = append(hdrWrites, call)
-				}
-			}
-		}
 		inLoop := func(in ssa.Instruction) bool {
 			for _, lp := range loops {
 				if lp.Blocks[in.Block()] {
@@ -299,28 +294,77 @@ func c07(c *core.Ctx) {
 			}
 			return false
 		}
-		nIn, nOut := 0, 0
-		for _, w := range hdrWrites {
-			// the closest dominating ChunkType store
-			var last *ssa.Store
-			for _, st := range stores {
-				if ssax.Dominates(st, w) && (last == nil || ssax.Dominates(last, st)) {
-					last = st
+		for _, g := range withHelpers(encChunks) {
+			var stores []*ssa.Store
+			for _, a := range ssax.FieldAccesses(g, chunkType) {
+				if st, ok := a.Use.(*ssa.Store); ok && a.Kind == ssax.Write {
+					stores = append(stores, st)
 				}
 			}
+			for _, call := range ssax.CallsTo(g, writeStruct) {
+				arg := call.Common().Args[1]
+				mi, ok := arg.(*ssa.MakeInterface)
+				if !ok {
+					continue
+				}
+				if n := derefNamed(mi.X.Type()); n == nil || n.Obj().Name() != "Header" {
+					continue
+				}
+				var last *ssa.Store
+				for _, st := range stores {
+					if ssax.Dominates(st, call) && (last == nil || ssax.Dominates(last, st)) {
+						last = st
+					}
+				}
+				if g == encChunks {
+					e := emission{at: call, kind: -1, set: last != nil}
+					if last != nil {
+						e.kind, _ = ssax.ConstInt(last.Val)
+						e.stIn = last
+						if _, isK := ssax.ConstInt(last.Val); !isK {
+							e.kind = -1
+						}
+					}
+					ems = append(ems, e)
+					continue
+				}
+				// helper: kind from a parameter → one emission per call site in EncodeChunks
+				if last == nil {
+					continue
+				}
+				pi := -1
+				for i, p := range g.Params {
+					if ssax.Strip(last.Val) == ssa.Value(p) {
+						pi = i
+					}
+				}
+				for _, cs := range ssax.Calls(encChunks) {
+					if cs.Common().StaticCallee() != g {
+						continue
+					}
+					e := emission{at: cs, kind: -1, set: true, stIn: cs}
+					if k, isK := ssax.ConstInt(last.Val); isK {
+						e.kind = k
+					} else if pi >= 0 && pi < len(cs.Common().Args) {
+						if k, isK := ssax.ConstInt(cs.Common().Args[pi]); isK {
+							e.kind = k
+						}
+					}
+					ems = append(ems, e)
+				}
+			}
+		}
+		nIn, nOut := 0, 0
+		for _, e := range ems {
+			w := e.at
 			if inLoop(w) {
 				nIn++
-				k := int64(-1)
-				if last != nil {
-					k, _ = ssax.ConstInt(last.Val)
-				}
-				c.Ob("C07.flags", fname(encChunks)+"·chunks written inside the loop are Intermediate", pos(c, w), k == interm && last != nil && inLoop(last), "ChunkType stored before the header is written: "+string(rune(k)))
-			} else if last != nil {
-				k, _ := ssax.ConstInt(last.Val)
-				if k == interm || k == final {
+				c.Ob("C07.flags", fname(encChunks)+"·chunks written inside the loop are Intermediate", pos(c, w), e.kind == interm && e.set && inLoop(e.stIn), "ChunkType stored before the header is written: "+string(rune(e.kind)))
+			} else if e.set {
+				if e.kind == interm || e.kind == final {
 					nOut++
 					// OPN branch writes the header without touching ChunkType: only the symmetric final chunk matters
-					c.Ob("C07.flags", fname(encChunks)+"·chunk written after the loop is Final", pos(c, w), k == final, "ChunkType stored before the last header is written: "+string(rune(k)))
+					c.Ob("C07.flags", fname(encChunks)+"·chunk written after the loop is Final", pos(c, w), e.kind == final, "ChunkType stored before the last header is written: "+string(rune(e.kind)))
 				}
 			}
 		}
@@ -402,12 +446,19 @@ func c07(c *core.Ctx) {
 		c.Ob("C07.lockstep", "uasc·encrypt condition == decrypt condition", c.P.Pos(sign.Pos()), enc != nil && dec != nil && sameModuloNone(ea, da), "signAndEncrypt encrypts under ["+ea+"]; verifyAndDecrypt decrypts under ["+da+"]")
 		// extra padding
 		sRemote, vOwn := false, false
-		for _, cmp := range allCmps(sign) {
+		allCmpsH := func(f *ssa.Function) []ssax.Cmp {
+			var out []ssax.Cmp
+			for _, g := range withHelpers(f) {
+				out = append(out, allCmps(g)...)
+			}
+			return out
+		}
+		for _, cmp := range allCmpsH(sign) {
 			if k, ok := ssax.ConstInt(cmp.Y); ok && k == 256 && cmp.Op == token.GTR && strings.Contains(ssax.Path(cmp.X), "RemoteSignatureLength(") {
 				sRemote = true
 			}
 		}
-		for _, cmp := range allCmps(verify) {
+		for _, cmp := range allCmpsH(verify) {
 			if k, ok := ssax.ConstInt(cmp.Y); ok && k == 256 && cmp.Op == token.GTR && strings.HasPrefix(ssax.Path(cmp.X), "SignatureLength(") {
 				vOwn = true
 			}
@@ -415,7 +466,7 @@ func c07(c *core.Ctx) {
 		c.Ob("C07.lockstep", "uasc·extra padding byte: sender tests the peer key, receiver its own key", c.P.Pos(sign.Pos()), sRemote && vOwn, "sender tests RemoteSignatureLength() > 256: "+boolStr(sRemote)+"; receiver tests SignatureLength() > 256: "+boolStr(vOwn))
 		// SetMaximumBodySize reserves the same extra byte with the sender's test
 		mRemote := false
-		for _, cmp := range allCmps(setMax) {
+		for _, cmp := range allCmpsH(setMax) {
 			if k, ok := ssax.ConstInt(cmp.Y); ok && k == 256 && cmp.Op == token.GTR && strings.Contains(ssax.Path(cmp.X), "RemoteSignatureLength(") {
 				mRemote = true
 			}
